@@ -138,6 +138,70 @@ def check_tstep_dims(ctx, rp, q):
     return n
 
 
+AGGREGATES = ('unique', 'sum', 'count_nonzero', 'bincount', 'nonzero', 'diff', 'cumsum')
+
+
+def check_first_step_only(ctx, rule='R-FIRSTSTEP'):
+    """The records per time step are read off the FIRST step (index of the first record whose stamp differs from record 0).  A count
+    derived from a statistic of the whole record table - number of distinct stamps, number of stamp changes - is the same on a whole
+    file but changes when the file is cut inside a later step: the partial step counts as one more stamp, the quotient comes out too
+    small and, when the remainder test happens to pass, the file opens with wrong layer and step counts instead of raising."""
+    ctx.rule(rule, 'memmap met readers: the records per time step come from the first step boundary, not from a statistic over all records')
+    n = 0
+    for fmt, cls in (('temperature', 'temperature'), ('height_pressure', 'height_pressure'), ('one3d', 'one3d')):
+        rp = CAMX + fmt + '/Memmap.py'
+        m = ctx.src.mod(rp)
+        fn = m.func(cls + '.__init__')
+        where = 'src/PseudoNetCDF/%s %s.__init__' % (rp, cls)
+        bad = None
+        for st in iter_stmts(fn.body):
+            if not (isinstance(st, ast.Assign) and len(st.targets) == 1 and isinstance(st.targets[0], ast.Name)):
+                continue
+            for b in ast.walk(st.value):
+                if isinstance(b, ast.BinOp) and isinstance(b.op, (ast.FloorDiv, ast.Div)):
+                    agg = [c for c in ast.walk(b.right) if isinstance(c, ast.Call) and (dotted(c.func) or getattr(c.func, 'attr', '') or '').split('.')[-1] in AGGREGATES]
+                    names = set(n_.id for n_ in ast.walk(b.right) if isinstance(n_, ast.Name))
+                    # or a name defined from such an aggregate
+                    for nm_ in names:
+                        for d_ in iter_stmts(fn.body):
+                            if isinstance(d_, ast.Assign) and isinstance(d_.targets[0], ast.Name) and d_.targets[0].id == nm_:
+                                agg += [c for c in ast.walk(d_.value) if isinstance(c, ast.Call) and (dotted(c.func) or getattr(c.func, 'attr', '') or '').split('.')[-1] in AGGREGATES
+                                        and not isinstance(getattr(c, '_parent', None), ast.Subscript)]
+                    if agg and 'record' in norm(b.left):
+                        bad = bad or (st, agg[0])
+        n += 1
+        if bad:
+            ctx.violation(Finding(rule, rp, cls + '.__init__', bad[0], 'the records per time step are computed as %s, i.e. from %s over the whole record table: a file cut inside a later step has one more '
+                                  'stamp, the quotient is too small, and where the remainder test happens to pass the reader opens it with wrong layer / step counts instead of raising' % (
+                                      norm(bad[0].value)[:60], norm(bad[1])[:40])), oid=fmt)
+        else:
+            ctx.ok(rule, fmt, where, 'no quotient of the record count by a whole-table statistic')
+    return n
+
+
+def check_strided_flags(ctx, rule='R-STRIDEFLAGS'):
+    """wind: the per-step time flags are taken from the records selected for the counted whole steps; an open-ended strided slice over
+    the whole mapping ([k::step]) also picks the header of a step the file was cut in, so TFLAG gets one more row than TSTEP, U and V"""
+    ctx.rule(rule, 'wind memmap reader: no open-ended strided slice over the whole mapping feeds the time flags')
+    rp = CAMX + 'wind/Memmap.py'
+    m = ctx.src.mod(rp)
+    n = 0
+    bad = None
+    for q, fn in sorted(m.functions.items()):
+        if not q.startswith('wind.'):
+            continue
+        n += 1
+        for x in ast.walk(fn):
+            if isinstance(x, ast.Subscript) and isinstance(x.slice, ast.Slice) and x.slice.upper is None and x.slice.step is not None and not isinstance(x.slice.step, ast.Constant) \
+                    and 'memmap' in norm(x.value):
+                bad = bad or (q, x)
+    if bad:
+        ctx.violation(Finding(rule, rp, bad[0], api.stmt_of(bad[1]), '%s takes every step-th word of the whole mapping without an upper bound: for a file cut inside a step (past its time header) the flags of '
+                              'the incomplete step are exposed although TSTEP counts only whole steps' % norm(bad[1])[:50]))
+    else:
+        ctx.ok(rule, 'wind', 'src/PseudoNetCDF/%s' % rp, '%d methods, no open-ended strided slice of the mapping' % n)
+
+
 def check_blocksize(ctx, fmt, cls):
     rp = CAMX + fmt + '/Memmap.py'
     m = ctx.src.mod(rp)
@@ -223,6 +287,8 @@ def run(ctx):
     for rp_, q_ in ((CAMX + 'temperature/Memmap.py', 'temperature.__init__'), (CAMX + 'one3d/Memmap.py', 'one3d.__init__'), (CAMX + 'wind/Memmap.py', 'wind.__init__'),
                     (CAMX + 'uamiv/Memmap.py', 'uamiv.__readheader'), (CAMX + 'lateral_boundary/Memmap.py', 'lateral_boundary.__readheader')):
         check_tstep_dims(ctx, rp_, q_)
+    check_first_step_only(ctx)
+    check_strided_flags(ctx)
     n += check_count_arith(ctx, 'geoschemfiles/_bpch.py', 'bpch1.__init__', ('itemcount',))
     # one3d stores its count in an attribute
     o3 = ctx.src.mod(CAMX + 'one3d/Memmap.py').func('one3d.__init__')
